@@ -5,3 +5,4 @@ import AscentVerif.Props.C16Basic
 import AscentVerif.Props.C16Struct
 import AscentVerif.Model.Index
 import AscentVerif.Props.C19
+import AscentVerif.Props.C01
